@@ -61,7 +61,18 @@ func (p Polygon) op(p2 Polygonal, op polyclip.Op) Polygon {
 	for _, pp2x := range p2.Polygons() {
 		pp2 = append(pp2, pp2x.toPolyClip()...)
 	}
-	return polyClipToPolygon(pp.Construct(op, pp2))
+	return polyClipToPolygon(pp.Construct(xorOfDisjoint(op, pp, pp2), pp2))
+}
+
+// xorOfDisjoint works around the clipper returning nothing for the XOR of
+// operands that cannot overlap (an empty operand or non-overlapping bounding
+// boxes): in those cases the symmetric difference is the union.
+func xorOfDisjoint(op polyclip.Op, pp, pp2 polyclip.Polygon) polyclip.Op {
+	if op == polyclip.XOR && (len(pp) == 0 || len(pp2) == 0 ||
+		!pp.BoundingBox().Overlaps(pp2.BoundingBox())) {
+		return polyclip.UNION
+	}
+	return op
 }
 
 func (p Polygon) toPolyClip() polyclip.Polygon {
